@@ -28,6 +28,10 @@ CHECKS = {
    technique="bounded-exhaustive enumeration of all small node trees over the equality-kind alphabet with all child permutations, all single edits, all copy paths and all single mutations; all ordered pairs for symmetry",
    text="Every tree up to N nodes (quick 3 over 25 labels + 4 over 12 labels; thorough 4 + 5) is checked against the laws: every copy path (DeepCopy, identity Filter, decode(encode)) is DeepEqual both ways, serialises identically and shares no node; every re-ordering of children at every level is DeepEqual; every single insert/delete/change of a plain node is detected; every single mutation of copy or source leaves the other byte-identical; DeepEqual/DeepEqualNodes are symmetric on all ordered pairs of trees up to 3 nodes.",
    note="Small scope: N nodes, the listed label alphabet (one or two labels per equality rule). Known finding (greedy matching + non-transitive DATE equality) is carved out by a predicate evaluated on the failing tree; permutation failures without such a triple still fire."),
+ "C08": dict(engine="E3", category="exploration", design_ref="§4 C08",
+   technique="bounded-exhaustive enumeration of all small tree pairs x all orders of diff operations up to length 4, with provenance/coverage invariants and byte-identical-input purity after every operation",
+   text="Every ordered pair of trees up to N nodes (quick 3, thorough 4) with equal root tag, every tree against permuted copies and copies with 1-2 uniquely tagged leaves inserted (both directions); invariants: provenance by identity and depth, coverage of every input node by an entry holding an Equals node under its parent's entry, two-sided only for Equals nodes, inserted leaves one-sided, deep-equal inputs all two-sided; all 340 operation orders over {String, IsDeepEqual, Sort, Tag} leave both inputs byte-identical.",
+   note="Alphabet chosen for the matcher's shortcuts (duplicate siblings, always-equal BIRT, child-dependent RESI/DATE, pointered node). Full operation-order product only on pairs with <=4 (quick) / <=5 (thorough) nodes in total; larger pairs get three representative orders."),
  "C05": dict(engine="E3", category="exploration", design_ref="§4 C05",
    technique="bounded-exhaustive enumeration of every calendar date against an own calendar reference model",
    text="Every day, month-year and year (quick: three 400-year blocks; thorough: all of 1..9999) is run through the real Date.Time/Years/IsBefore/IsAfter/Duration/Minimum/Maximum and compared with own proleptic-Gregorian arithmetic; exhaustive as the property's quantifier states.",
